@@ -294,6 +294,11 @@ func C09(c *core.Ctx) error {
 		ics[1]["configs"] = []any{core.M{"template-data": core.M{"ok": "scalar in a configs entry"}}, core.M{"template-data": core.M{"ok": []any{"list", 2}}}}
 		s.expect = []string{P("a") + "|IA2|MockIA2", P("a") + "|IA|MockIA", P("b") + "|IB|MockIB", P("b") + "|IB|MockIB", P("c") + "|IC|MockIC"}
 	})
+	add("two interfaces into one output file whose path is spelled relatively and through {{.ConfigDir}}", false, func(root core.M, pcs, ics []core.M, files map[string]string, s *c09scn) {
+		root["filename"] = "shared_gen_test.go"
+		ics[0]["config"].(core.M)["dir"] = "a"
+		root["packages"].(core.M)[P("a")].(core.M)["interfaces"].(core.M)["IA2"] = core.M{"config": core.M{"dir": "{{.ConfigDir}}/a"}}
+	})
 	add("build-tagged file without build-tags (tag off)", false, func(root core.M, pcs, ics []core.M, files map[string]string, s *c09scn) {
 		files["a/tagged.go"] = "//go:build special\n\npackage a\n\ntype Tagged interface{ T() }\n"
 	})
